@@ -10,6 +10,8 @@
 #include <unistd.h>
 #include "libwifi.h"
 #include "hx.h"
+unsigned char *g_in_ptr, *g_in_copy; size_t g_in_len;
+size_t g_trail = 0; int g_prefill = 0xA5; static int g_precall = 0;
 
 /* ---------------------------------------------------------------- helpers */
 static int is_readonly_ptr(const void *p) {
@@ -103,15 +105,32 @@ static void op_alloc(char **tok, int n) {
     hfree(cap);
 }
 
+/* an unrelated library call made before every op when LWV_PRECALL is set (C13: earlier calls must not matter) */
+static void precall(void) {
+    struct libwifi_beacon b; unsigned char a[6] = {9, 9, 9, 9, 9, 9}; unsigned char buf[128];
+    if (libwifi_create_beacon(&b, a, a, a, "earlier-call", 11) == 0) {
+        size_t n = libwifi_dump_beacon(&b, buf, sizeof buf);
+        struct libwifi_frame fr; struct libwifi_bss bss;
+        if ((ssize_t) n > 0 && libwifi_get_wifi_frame(&fr, buf, n, 0) == 0) { libwifi_parse_beacon(&bss, &fr); libwifi_free_bss(&bss); }
+        libwifi_free_wifi_frame(&fr);
+    }
+    libwifi_free_beacon(&b);
+}
+
 int main(void) {
     char *line = NULL; size_t cap = 0; ssize_t len;
     setvbuf(stdout, NULL, _IOFBF, 1 << 20);
+    if (getenv("LWV_TRAIL")) g_trail = (size_t) atol(getenv("LWV_TRAIL"));
+    if (getenv("LWV_PREFILL")) g_prefill = atoi(getenv("LWV_PREFILL"));
+    if (getenv("LWV_PRECALL")) g_precall = atoi(getenv("LWV_PRECALL"));
+    if (getenv("LWV_FILL")) { lwv_set_fill(atoi(getenv("LWV_FILL"))); lwv_arm(-1, 0); }
     while ((len = getline(&line, &cap, stdin)) > 0) {
         while (len > 0 && (line[len - 1] == '\n' || line[len - 1] == '\r')) line[--len] = 0;
         static char *tok[1 << 16];
         int n = 0;
         for (char *p = strtok(line, " "); p && n < (1 << 16); p = strtok(NULL, " ")) tok[n++] = p;
         if (n == 0) { printf("empty\n"); continue; }
+        if (g_precall) precall();
         if (!strcmp(tok[0], "alloc")) op_alloc(tok, n);
         else if (!dispatch_all(tok, n)) printf("bad-op\n");
         fflush(stdout);
